@@ -27,7 +27,7 @@ import (
 func TestMain(m *testing.M) {
 	logrus.SetOutput(io.Discard)
 	logrus.SetLevel(logrus.PanicLevel)
-	ev.C().Rule("rapid state machine over a real CachedCloudProvider with a scripted CloudProvider (per call: full / partial / empty / error with partial data; batch limit 1, 2 or 5; lookup limiter unlimited or 10^6/s with burst 1, 2 or 15) and an owned refresh ticker: actions submit(1..3 sources) / peek / tick(real now + k*10min) / emit / tickSlowProvider (refresh whose provider calls block) / release (the blocked calls return, possibly after the entries were evicted as idle) / idleAfterFailedRefresh (real-time bracketing of last use and failed refresh, then a tick between the two idle deadlines). TTL 15 / negative TTL 5 / idle 25 min, or TTL 40 / negative 35 / idle 25 min (unused but still fresh), so that every comparison has >= 5 min of margin against seconds of real drift. Oracle: answer-per-request multiset, cache model (never forgets good data), refresh and eviction sets, cache-size gauges. Non-trivial = a success followed by a failed refresh of the same source, or >= 2 sources in one provider call, or a refresh answer arriving after its entry was evicted")
+	ev.C().Rule("rapid state machine over a real CachedCloudProvider with a scripted CloudProvider (per call: full / partial / empty / error with partial data; batch limit 1, 2 or 5; lookup limiter unlimited or 10^6/s with burst 1, 2 or 15) and an owned refresh ticker: actions submit(1..3 sources) / peek / tick(real now + k*10min) / emit / tickSlowProvider (refresh whose provider calls block) / release (the blocked calls return, possibly after the entries were evicted as idle) / idleAfterFailedRefresh (real-time bracketing of last use and failed refresh, then a tick between the two idle deadlines). TTL 15 / negative TTL 5 / idle 25 min, or TTL 40 / negative 35 / idle 25 min (unused but still fresh), so that every comparison has >= 5 min of margin against seconds of real drift. Oracle: answer-per-request multiset, cache model (never forgets good data), refresh and eviction sets, cache-size gauges; slow-consumer layer: 3..200 distinct sources submitted while the client does not read answers, then read in drawn bursts - exactly one answer per source, carrying what the provider said. Non-trivial = a success followed by a failed refresh of the same source, or >= 2 sources in one provider call, or a refresh answer arriving after its entry was evicted")
 	vt.Main(m)
 }
 
